@@ -207,7 +207,9 @@ fn gen_dist(src: &mut Src, lo: f64, hi: f64) -> AnyDist {
             }
         }
         9 => {
-            let (al, be) = (decade(src, -2, 2), decade(src, -2, 2));
+            // (shape parameters far outside this range make the `probability` crate's incomplete beta
+            // function take milliseconds per evaluation)
+            let (al, be) = (decade(src, -1, 1).min(50.0), decade(src, -1, 1).min(50.0));
             let a = location(src, lo, hi).clamp(-1e100, 1e100);
             let b = a + decade(src, -3, 6);
             if a < b {
@@ -415,6 +417,19 @@ macro_rules! leaky_cfg {
                 ctx.nontrivial();
             }
             if mode == 5 {
+                // the conversions below reserve `size_hint().0` entries: a lower bound above the
+                // real length makes them reserve (and, where memory is limited, fail to
+                // reserve) gigabytes for a handful of symbols
+                let (lower, upper) = m.symbol_table().size_hint();
+                vcheck!(
+                    lower <= t.rows.len() && upper.map_or(true, |u| u >= t.rows.len()),
+                    "C05/symbol_table_size_hint_inconsistent_with_length",
+                    "{}: symbol_table().size_hint() = ({}, {:?}) but the table has {} symbols",
+                    what,
+                    lower,
+                    upper,
+                    t.rows.len()
+                );
                 let it = table_from_iter::<_, P>(&m, key);
                 tables_equal(&t, &it, "encoder view", "symbol_table")?;
                 let ge = m.to_generic_encoder_model();
